@@ -46,7 +46,7 @@ TStDupCancel == /\ Is("st") /\ Ev.v = "C" /\ status[Ev.s] = "C" /\ Consume /\ UN
 \* two nested loops over one included pipeline may both find a condition false and both store Skipped
 TStDupSkip == /\ Is("st") /\ Ev.v = "S" /\ status[Ev.s] = "S" /\ gr[Ev.s] = 1 /\ cls[Ev.s] = "CFALSE"
               /\ Cardinality({i \in Stages : inc[i]}) > 1 /\ Consume /\ UNCHANGED vars
-TStPublish == /\ Is("st") /\ gpc[Ev.s] = "back" /\ Publish(Ev.s) /\ status'[Ev.s] = Ev.v /\ Consume
+TStPublish == /\ Is("st") /\ gpc[Ev.s] = "back" /\ PublishAtomic(Ev.s) /\ status'[Ev.s] = Ev.v /\ Consume
 TEnter == /\ Is("enter") /\ StageEnter(Ev.s) /\ Consume
 TRet == /\ Is("ret") /\ StageRet(Ev.s) /\ Ev.failed = rfail'[Ev.s] /\ Consume
 TNRet == /\ Is("nret") /\ (\E i \in Stages : NReturn(i)) /\ Consume
